@@ -274,10 +274,16 @@ impl SwiftField for Field55ThirdReimbursementInstitution {
                 let field = Field55D::parse(value)?;
                 Ok(Field55ThirdReimbursementInstitution::D(field))
             }
-            _ => {
-                // No variant specified, fall back to default parse behavior
+            None => {
+                // No option letter given at all: fall back to the content heuristic
                 Self::parse(value)
             }
+            Some(other) => Err(ParseError::InvalidFormat {
+                message: format!(
+                    "Field55ThirdReimbursementInstitution has no option '{}'",
+                    other
+                ),
+            }),
         }
     }
 
